@@ -124,6 +124,8 @@ def _cvc5(task):
 def discharge(obls, timeout_s=30, axioms=None, use_cvc5=False, escalate=True, no_escalate=None, model_spec=None):
     """obls: list of core.Obligation -> list of dict(name, status, backend, seconds, detail)."""
     axioms = core.spec_axioms() if axioms is None else axioms
+    if len({o.name for o in obls}) != len(obls):
+        raise core.ContractError('discharge: obligation names are not unique (results are keyed by name)')
     tasks, trivial = [], {}
     for o in obls:
         g = z3.simplify(o.goal) if z3.is_expr(o.goal) else z3.BoolVal(bool(o.goal))
